@@ -5,13 +5,16 @@ import (
 	"encoding/json"
 	"errors"
 	"fmt"
+	exsrv "github.com/cybergarage/go-redis/examples/go-redisd/server"
 	"sort"
 	"strings"
 	"time"
+	"unsafe"
 
 	"github.com/cybergarage/go-redis/redis"
 	"github.com/cybergarage/go-redis/vrt"
 	"verif/fw"
+	"verif/resp"
 	"verif/sched"
 	"verif/srv"
 )
@@ -408,6 +411,71 @@ func c14Scenarios() []c14Scenario {
 			Verdict: c14Verdict(func() string { return fmt.Sprint("seen=", seen) }),
 		}
 	}})
+	// S17: the bundled example store behind two clients working on the same keys, one of them
+	// wrapping its requests in an extra array level (nested command arrays are unwrapped and
+	// executed like flat ones)
+	out = append(out, c14Scenario{Name: "S17-example-store-flat-and-nested-requests", New: func() *sched.Run {
+		var outcomes []string
+		return &sched.Run{
+			Body: func() {
+				// the handler of the second server stands for any application store that relies on the
+				// framework executing one command at a time: every handler call writes one shared word
+				canary := new(int)
+				d := srv.NewDouble()
+				d.OnCall = func(conn *redis.Conn, c srv.Call) {
+					vrt.Access(unsafe.Pointer(canary), "application store (relies on one command at a time)", "handler."+c.Method, true)
+					*canary++
+				}
+				ds := srv.NewServer(d)
+				ds.SetPort(6390)
+				if ds.Start() != nil {
+					return
+				}
+				ex := exsrv.NewServer()
+				if ex.Start() != nil {
+					return
+				}
+				for i := 0; i < 2; i++ {
+					i := i
+					vrt.Go(fmt.Sprintf("dclient%d", i), func() {
+						cl, o := sched.Dial(":6390")
+						if o.Status != "ok" {
+							return
+						}
+						for _, r := range [][]string{{"SET", "k", "v"}, {"INCR", "n"}, {"MSET", "a", "1", "b", "2"}} {
+							b := resp.Cmd(r...).Bytes()
+							if i == 1 {
+								b = append([]byte("*1\r\n"), b...)
+							}
+							cl.Send(b)
+							outcomes = append(outcomes, cl.Recv().Status)
+						}
+						cl.Close()
+					})
+				}
+				reqs := [][]string{{"RPUSH", "l", "x"}, {"INCR", "n"}, {"HSET", "h", "f", "v"}, {"SADD", "s", "m"}, {"ZADD", "z", "1", "m"}, {"EXPIRE", "l", "100"}, {"LRANGE", "l", "0", "-1"}}
+				for i := 0; i < 2; i++ {
+					i := i
+					vrt.Go(fmt.Sprintf("client%d", i), func() {
+						cl, o := sched.Dial(":6379")
+						if o.Status != "ok" {
+							return
+						}
+						for _, r := range reqs {
+							b := resp.Cmd(r...).Bytes()
+							if i == 1 {
+								b = append([]byte("*1\r\n"), b...)
+							}
+							cl.Send(b)
+							outcomes = append(outcomes, cl.Recv().Status)
+						}
+						cl.Close()
+					})
+				}
+			},
+			Verdict: c14Verdict(func() string { return strings.Join(outcomes, ",") }),
+		}
+	}})
 	out = append(out, lifecycle("S4-stop-vs-clients", func(s *redis.Server) error { return s.Stop() }, false))
 	out = append(out, lifecycle("S5-restart-with-idle-client", func(s *redis.Server) error { return s.Restart() }, true))
 	out = append(out, lifecycle("S5b-restart-with-new-password", func(s *redis.Server) error { s.SetRequirePass("pw"); return s.Restart() }, true))
@@ -526,7 +594,7 @@ func init() {
 	fw.Register(&fw.Prop{
 		ID:    "C14",
 		Level: "model_checking",
-		Rule:  "18 scenarios on the real Start/accept loop/connection goroutines over the in-memory network: two clients doing CONFIG SET/GET; a client connecting while another CONFIG SETs requirepass; two clients running a command of every executor family (and AUTH sequences) against a race-free double; two clients connecting/disconnecting while the harness enumerates the registry (Conns, ConnByUUID, connection accessors); Stop concurrent with clients mid-command and connecting; Restart with an idle client; Restart after SetRequirePass; two TLS clients (real handshake) doing CONFIG SET while Stop runs; two application goroutines enumerating the registry at once right after a connect, with a further client connecting or with Stop running; two connected clients sending AUTH (one- and two-argument) and SELECT while Stop / Restart closes their connections; an application goroutine calling the configuration API (SetConfig, AppendConfig, RemoveConfig, ConfigString, SetRequirePass, RemoveRequirePass, SetTLSPort, ...) while two clients read the configuration literally and through patterns, write it, connect and authenticate; Stop / Restart sweeping connections whose Close reports an error; an application goroutine reading every accessor of every registered connection while TLS clients handshake. Local variables shared with a goroutine through a closure started by a go statement are instrumented like fields. Every schedule within deviation bound 2 (thorough 3) is executed with every field access of the instrumented framework feeding a vector-clock happens-before oracle (edges: go, mutex/RWMutex release-acquire, sync.Map per key, connection write->read, dial->accept, close->EOF/error; scheduler hand-offs are NOT edges); locations found racy become scheduling points and the exploration is repeated until the racy set is stable. A race is an unordered pair of access sites on one location with at least one write; a WaitGroup's first increment from zero and a blocking Wait count as read and write of one location, as in the Go race detector.",
+		Rule:  "19 scenarios on the real Start/accept loop/connection goroutines over the in-memory network: two clients doing CONFIG SET/GET; a client connecting while another CONFIG SETs requirepass; two clients running a command of every executor family (and AUTH sequences) against a race-free double; two clients connecting/disconnecting while the harness enumerates the registry (Conns, ConnByUUID, connection accessors); Stop concurrent with clients mid-command and connecting; Restart with an idle client; Restart after SetRequirePass; two TLS clients (real handshake) doing CONFIG SET while Stop runs; two application goroutines enumerating the registry at once right after a connect, with a further client connecting or with Stop running; two connected clients sending AUTH (one- and two-argument) and SELECT while Stop / Restart closes their connections; an application goroutine calling the configuration API (SetConfig, AppendConfig, RemoveConfig, ConfigString, SetRequirePass, RemoveRequirePass, SetTLSPort, ...) while two clients read the configuration literally and through patterns, write it, connect and authenticate; Stop / Restart sweeping connections whose Close reports an error; an application goroutine reading every accessor of every registered connection while TLS clients handshake; two clients on the same keys of the bundled example store, one with flat and one with nested command arrays. Local variables shared with a goroutine through a closure started by a go statement are instrumented like fields. Every schedule within deviation bound 2 (thorough 3) is executed with every field access of the instrumented framework feeding a vector-clock happens-before oracle (edges: go, mutex/RWMutex release-acquire, sync.Map per key, connection write->read, dial->accept, close->EOF/error; scheduler hand-offs are NOT edges); locations found racy become scheduling points and the exploration is repeated until the racy set is stable. A race is an unordered pair of access sites on one location with at least one write; a WaitGroup's first increment from zero and a blocking Wait count as read and write of one location, as in the Go race detector.",
 		Assumptions: []string{
 			"setters documented as pre-start configuration (SetTracer, SetCommandHandler, RegisterExexutor, SetPort) are called before Start only; SetRequirePass before Restart is called by the lifecycle thread between Stop-free calls as the repository's own tests do",
 			"the race-detector stress with 2..32 clients is replaced by exhaustive small scenarios: a race is a pair of accesses, two contending threads exhibit it",
